@@ -10,6 +10,33 @@ SOLO_TECH = ("TLA+ single-handler adversarial model (Solo.tla over the SrcCore /
              "TLC invariant of every input sequence up to the depth bound; TLC-enumerated sequences replayed into the real "
              "handler; recorded executions validated against the transducers and judged by the same TLA+ monitor")
 CLAIMED = {
+    "C17": dict(
+        text="FilestoreOps.tla is a reference model of the documented semantics of the native filestore's operations (create, delete, "
+             "rename, replace, create / remove directory (recursive or not), truncate, write at offset, read at offset, size, exists, "
+             "is-directory) over a tree of files and directories with the operation-specific refusal codes. TLC explores every "
+             "operation sequence up to the depth bound over a small universe and checks on every transition: refused or failing "
+             "operations leave the tree unchanged, success codes only when the effect happened, written data reads back and other "
+             "bytes are untouched (gaps zero), the tree stays well-formed. Every distinct (tree, operation) transition is performed "
+             "on a real NativeFilestore in a fresh sandbox, plus seeded random histories of 30 operations; TLC recomputes the "
+             "reference result for each observed step and compares status code / exception class / data / resulting tree.",
+        ref="DESIGN.md section 6 C17",
+        tech="TLA+ reference file-system model checked by TLC + every model transition replayed on the real filestore + observed "
+             "operations judged against the reference model by TLC (FilestoreTrace.tla)",
+        note="Trusted: TLC; the sandbox snapshot. Where the documentation is silent (missing parent for rename / mkdir, operations on "
+             "directories) the model records the current behaviour as the reference. list_directory is outside the statement."),
+    "C20": dict(
+        text="Routing.tla states the routing table; TLC checks (constant-level, complete: 8 kinds x acknowledged directive x direction x "
+             "mode x 4 id widths x CRC flag, against each of 19 handler steps in both handler modes) that it agrees with the admission "
+             "relations AdmitS / AdmitD of the transducers: routed to a handler => never refused as the other side's; routed to the "
+             "other side => always refused with a protocol exception. Every point is built with spacepackets and sent through the "
+             "real get_packet_destination; every PDU kind is offered with valid addressing to real handlers stopped after every call "
+             "of nominal transfers; acknowledge_inactive_eof_pdu is called for every condition code x status x header variant; TLC "
+             "judges the observed routing results, exception classes and ACK PDUs.",
+        ref="DESIGN.md section 6 C20",
+        tech="TLA+ routing table vs the transducers' admission relations checked completely by TLC + every point executed on the real "
+             "routing helper and handlers and judged by TLC (RoutingTrace.tla)",
+        note="Trusted: TLC; spacepackets PDU constructors; harness projection. The conformance of AdmitS / AdmitD with the code is "
+             "established by the C10 check."),
     "C09": dict(
         text="Checksum.tla defines CRC-32 (ISO-HDLC) and CRC-32C bit-serially from their polynomials (16-bit limbs; catalogue check "
              "values asserted), the CCSDS modular word sum and the null checksum, sharing nothing with crcmod. TLC checks on the "
